@@ -1,6 +1,6 @@
 //! C01: fixed-point helpers of crates/model (num.rs, utils.rs, fixed.rs).
 //! modes: small (exhaustive small tuples, ints), wide (boundary-biased, decimal strings)
-use crate::util::{guarded, Args, Rng, Sink};
+use h_model::util::{guarded, Args, Rng, Sink};
 use gmsol_model::num::{MulDiv, Unsigned};
 use gmsol_model::utils;
 use serde_json::json;
@@ -244,10 +244,13 @@ fn wide(args: &Args) -> i32 {
     0
 }
 
-pub fn run(mode: &str, args: &Args) -> i32 {
-    match mode {
-        "small" => small(args),
-        "wide" => wide(args),
+fn main() {
+    h_model::util::quiet_panics();
+    let (mode, args) = Args::from_env();
+    let code = match mode.as_str() {
+        "small" => small(&args),
+        "wide" => wide(&args),
         _ => 2,
-    }
+    };
+    std::process::exit(code);
 }
